@@ -118,6 +118,7 @@ type Exec struct {
 	userState map[string]Value
 	lockWaiters []*G
 	findKey string
+	records []string
 	pools   map[*Cell]*poolState
 	randCalls int
 	randFaultAt int
@@ -382,6 +383,7 @@ type RunResult struct {
 	Sat, Unsat, Unknown int
 	SolveTime time.Duration
 	Terms     int
+	Records   []string
 }
 
 // runPath executes one path of the harness given a decision prefix.
@@ -436,6 +438,7 @@ func runPath(prog *Program, cfg *Config, sol *Solver, harness string, prefix []D
 		res.Sat, res.Unsat, res.Unknown = sol.nSat-s0, sol.nUnsat-u0, sol.nUnknown-k0
 		res.SolveTime = sol.solveTime - t0
 		res.Terms = e.tc.nTerms
+		res.Records = e.records
 		if len(e.samples) > 0 {
 			res.Sample = e.samples[0]
 		}
@@ -500,6 +503,7 @@ type HarnessResult struct {
 	Samples   []string
 	Truncated bool
 	Ends      map[string]int
+	Records   []string
 }
 
 // explore runs all paths of a harness with a pool of workers.
@@ -607,6 +611,9 @@ func explore(prog *Program, cfg *Config, harness string) *HarnessResult {
 				hr.Unknown += r.Unknown
 				hr.SolveTime += r.SolveTime
 				hr.Steps += r.Steps
+				if len(r.Records) > 0 {
+					hr.Records = r.Records
+				}
 				if r.Sample != "" && len(hr.Samples) < 3 {
 					hr.Samples = append(hr.Samples, r.Sample)
 				}
